@@ -258,6 +258,18 @@ func c20Mutations(u *vfUnit, valid vfPkt) []c20Mut {
 		{Type: rfExtendedReply, ID: valid.ID, ExtData: []byte{1, 2, 3}}, {Type: rfExtendedReply, ID: valid.ID},
 		{Type: rfVersion, Version: 3},
 	}
+	// valid but unusual: many extended attributes (nothing limits their number but the frame)
+	manyExt := func(n int) [][2]string {
+		var e [][2]string
+		for i := 0; i < n; i++ {
+			e = append(e, [2]string{fmt.Sprintf("user.k%d", i), fmt.Sprint(i)})
+		}
+		return e
+	}
+	subs = append(subs,
+		vfPkt{Type: rfAttrs, ID: valid.ID, Attrs: vfAttrs{Flags: 0x8000000F, Size: c20FileSize, Perm: 0o100644, Ext: manyExt(17)}},
+		vfPkt{Type: rfAttrs, ID: valid.ID, Attrs: vfAttrs{Flags: 0x8000000F, Size: c20FileSize, Perm: 0o100644, Ext: manyExt(300)}},
+		vfPkt{Type: rfName, ID: valid.ID, Names: []vfName{{Name: "n", Long: "l", Attrs: vfAttrs{Flags: 0x80000001, Size: 1, Ext: manyExt(40)}}, {Name: "m", Long: "k"}}})
 	for i, s := range subs {
 		out = append(out, c20Mut{kind: fmt.Sprintf("type-sub-%s-%d", rfTypeName(s.Type), i), body: s.Body()})
 	}
